@@ -274,6 +274,17 @@ def has_other(v):
     return False
 
 
+def has_uint64_range_int(v):
+    """a Python int in [2^63, 2^64) anywhere in the value"""
+    if v[0] == 'int':
+        return 2 ** 63 <= v[1] < 2 ** 64
+    if v[0] in ('tuple', 'list'):
+        return any(has_uint64_range_int(x) for x in v[1])
+    if v[0] == 'dict':
+        return any(has_uint64_range_int(x) for _, x in v[1])
+    return False
+
+
 def emit(cases, results, shard=400):
     shards = []
     for k in range(0, len(cases), shard):
@@ -283,6 +294,8 @@ def emit(cases, results, shard=400):
             c, r = cases[i], results[i]
             if isinstance(r, list) or 'build_exc' in r or 'item_exc' in r:
                 continue
+            if has_uint64_range_int(c['v']):
+                continue          # outside the model: numpy's int64 / uint64 / float64 promotion of Python ints >= 2^63 (DESIGN.md 12.4)
             try:
                 v = coqmval(c['v'], I)
                 if not r['saved']:
